@@ -20,9 +20,10 @@ P = {
         {'name': 'stakestates', 'n': {'quick': 1500, 'thorough': 40000}, 'batch': 5000, 'shrink_field': 'script'},
         {'name': 'stakequery', 'n': {'quick': 400, 'thorough': 10000}, 'batch': 4000, 'shrink_field': 'script'},
     ],
-    'coq_header': 'From HV Require Import Staking.StakeModel.\nFrom HV Require Import Evm.ExecModel.\nFrom Coq Require Import ZArith NArith List.\nImport ListNotations.',
+    'coq_header': 'From HV Require Import Staking.StakeModel.\nFrom HV Require Import Staking.CreateValModel.\nFrom HV Require Import Evm.ExecModel.\nFrom Coq Require Import ZArith NArith List.\nImport ListNotations.',
     'lists': {'cases': {'type': 'ecase * list Z * eobs', 'check': 'mismatches', 'shard': 50},
               'stake': {'type': 'scase', 'check': 'stake_mismatches', 'shard': 400},
+              'create': {'type': 'ccase', 'check': 'create_mismatches', 'shard': 400},
               'squery': {'type': 'qcase', 'check': 'query_mismatches', 'shard': 150}},
     'search': {'rounds': 3, 'n': 2000},
     'rule': 'a case is a random setup (balances, delegations, allocated rewards, withdraw addresses, staking and ICS-20 transfer grants of the signer) '
